@@ -171,6 +171,52 @@ theorem riscv_len_local (m m' : Memory) (a : BitVec 32) (hle : m.bigEndian = fal
   generalize read8 m' (a + 1) = c1; generalize read8 m' (a + 2) = c2; generalize read8 m' (a + 3) = c3
   bv_decide
 
+/-- **msp430_adjust_skips_exactly_the_pad.**  `list_output_msp430` starts one byte later exactly when the range
+starts on an odd address with a byte marked as data (the pad the assembler wrote); code that starts on an odd address
+(a `.repeat` copy) and every even start are listed from where they are. -/
+theorem msp430_adjust_skips_exactly_the_pad (m : Memory) (s : BitVec 32) :
+    (s &&& 1 ≠ 0 → readDebug m s = dlData → msp430.adjust m s = s + 1) ∧
+    (readDebug m s ≠ dlData → msp430.adjust m s = s) ∧ (s &&& 1 = 0 → msp430.adjust m s = s) := by
+  refine ⟨?_, ?_, ?_⟩
+  · intro h1 h2
+    show (if s &&& 1 ≠ 0 ∧ readDebug m s = dlData then s + 1 else s) = s + 1
+    rw [if_pos ⟨h1, h2⟩]
+  · intro h
+    show (if s &&& 1 ≠ 0 ∧ readDebug m s = dlData then s + 1 else s) = s
+    rw [if_neg (fun hh => h hh.2)]
+  · intro h
+    show (if s &&& 1 ≠ 0 ∧ readDebug m s = dlData then s + 1 else s) = s
+    rw [if_neg (fun hh => hh.1 h)]
+
+/-- **riscv_call_exact_of_encode.**  A 32-bit RISC-V instruction (`len = 4`, which `rv32i_encode_len` proves for every
+RV32I statement the assembler model encodes) is listed by a call that shows exactly its four bytes. -/
+theorem riscv_call_exact_of_len4 (cfg : Cfg) (hfmt : cfg.fmt = riscv) (m : Memory) (a : BitVec 32)
+    (hlen : Riscv.Disasm.len (read32 m a) = 4) (hfit : a.toNat + 4 < 4294967296) :
+    (mkCall cfg m a (a + 4) a).Exact := by
+  have h4 : (a + 4).toNat = a.toNat + 4 := by
+    have : (4 : BitVec 32) = BitVec.ofNat 32 4 := rfl
+    rw [this, toNat_add_ofNat _ _ hfit]
+  apply exact_of_walk cfg m (by rw [hfmt]; exact riscv_sound m) a (a + 4) a (by rw [hfmt]; rfl)
+  rw [hfmt]
+  have hl : riscv.len m a = 4 := hlen
+  have hlt : a < a + 4 := by rw [BitVec.lt_def, h4]; omega
+  have hnlt : ¬ (a + BitVec.ofNat 32 4 < a + 4) := by
+    have : (4 : BitVec 32) = BitVec.ofNat 32 4 := rfl
+    rw [this]; exact BitVec.lt_irrefl _
+  have e : a.toNat + 4 - a.toNat = 3 + 1 := by omega
+  have hadj : riscv.adjust m a = a := rfl
+  unfold listOutput
+  simp only [hadj]
+  rw [h4, e]
+  have step1 : listLoop riscv m (3 + 1) a (a + 4) = riscv.render m a :: listLoop riscv m 3 (a + BitVec.ofNat 32 (riscv.len m a)) (a + 4) := by
+    simp only [listLoop, hlt, if_true]
+  have step2 : listLoop riscv m 3 (a + BitVec.ofNat 32 4) (a + 4) = [] := by
+    show listLoop riscv m (2 + 1) (a + BitVec.ofNat 32 4) (a + 4) = []
+    simp only [listLoop, hnlt, if_false]
+  rw [step1, hl, step2]
+  simp only [List.map_cons, List.map_nil, List.sum_cons, List.sum_nil, Nat.add_zero]
+  rw [(riscv_sound m a).2.1]; exact hl
+
 /-! ## a whole second pass -/
 
 /-- **listing_bytes_true.**  For every statement sequence and every state the first pass left: every (address, byte)
